@@ -43,7 +43,7 @@ PROBES = ["fasta-replace-existing", "fastq-score-at-or-plus-at-line-start", "fas
           "genbank-join-location", "genbank-open-ended-location", "gff-percent-quoted", "gff-multi-location-feature",
           "stream-read-iter", "stream-write-iter", "typed-roundtrip", "rejected-op", "restart"]
 
-MEDIA = ["memory", "path", "tempfile", "wrapper"]
+MEDIA = ["memory", "path", "tempfile", "wrapper", "pathobj"]
 
 
 # ================================================================================================
@@ -477,6 +477,12 @@ class Base:
             p = os.path.join(d, "m" + suffix)
             writer(p)
             return reader(p)
+        if medium == "pathobj":
+            import pathlib
+
+            p = pathlib.Path(d) / ("po" + suffix)  # any os.PathLike is documented to be accepted like a str path
+            writer(p)
+            return reader(p)
         if medium == "tempfile":
             with tempfile.NamedTemporaryFile("w+", dir=d, suffix=suffix) as t:
                 writer(t)
@@ -516,6 +522,11 @@ class Base:
             self.fail("rejection:wrong-outcome", what=what, got="accepted" if st == "ok" else exc_name(val),
                       expected=[e.__name__ for e in (exc_types if isinstance(exc_types, tuple) else (exc_types,))], **detail)
         return "rejected:" + exc_name(val)
+
+
+def npi(i, step):
+    """The index as the caller might hold it: a Python int or (every third step) a numpy integer."""
+    return np.int64(i) if step % 3 == 0 else i
 
 
 def text_of(f):
@@ -1046,7 +1057,7 @@ class GenBankSim(Base):
     def op_insert(self, op):
         n = len(self.model)
         j = self.idx(op["i"], n, inclusive=True)
-        args = (op["i"], op["name"], op["content"], op["sub"])
+        args = (npi(op["i"], self.step), op["name"], op["content"], op["sub"])
         st, v = call(self.file.insert, *args)
         if j is None:
             # the statement only promises consistency; an out-of-range index may be refused or
@@ -1074,7 +1085,7 @@ class GenBankSim(Base):
         n = len(self.model)
         j = self.idx(op["i"], n)
         item = (op["name"], op["content"]) if op.get("two") else (op["name"], op["content"], op["sub"])
-        st, v = call(self.file.__setitem__, op["i"], item)
+        st, v = call(self.file.__setitem__, npi(op["i"], self.step), item)
         if j is None:
             self.res.stats["fault:index-out-of-range"] += 1
             if st == "exc" and not isinstance(v, IndexError):
@@ -1090,7 +1101,7 @@ class GenBankSim(Base):
     def op_delitem(self, op):
         n = len(self.model)
         j = self.idx(op["i"], n)
-        st, v = call(self.file.__delitem__, op["i"])
+        st, v = call(self.file.__delitem__, npi(op["i"], self.step))
         if j is None:
             self.res.stats["fault:index-out-of-range"] += 1
             if st == "exc" and not isinstance(v, IndexError):
@@ -1311,7 +1322,7 @@ class GenBankSim(Base):
         fmt = "gp" if op["records"][0]["kind"].startswith("prot") else "gb"
 
         def writer(tgt):
-            if isinstance(tgt, str):
+            if isinstance(tgt, (str, os.PathLike)):
                 with open(tgt, "w") as fh:
                     for f in files:
                         f.write(fh)
@@ -1488,7 +1499,7 @@ class GffSim(Base):
     def op_insert(self, op):
         n = len(self.model)
         j = self.pyidx(op["i"], n, inclusive=True)
-        st, v = call(self.file.insert, op["i"], *gff_args(op["e"]))
+        st, v = call(self.file.insert, npi(op["i"], self.step), *gff_args(op["e"]))
         if j is None:
             return self.oor(st, v)
         if st == "exc":
@@ -1501,7 +1512,7 @@ class GffSim(Base):
     def op_setitem(self, op):
         n = len(self.model)
         j = self.pyidx(op["i"], n)
-        st, v = call(self.file.__setitem__, op["i"], gff_args(op["e"]))
+        st, v = call(self.file.__setitem__, npi(op["i"], self.step), gff_args(op["e"]))
         if j is None:
             return self.oor(st, v)
         if st == "exc":
@@ -1514,7 +1525,7 @@ class GffSim(Base):
     def op_delitem(self, op):
         n = len(self.model)
         j = self.pyidx(op["i"], n)
-        st, v = call(self.file.__delitem__, op["i"])
+        st, v = call(self.file.__delitem__, npi(op["i"], self.step))
         if j is None:
             return self.oor(st, v)
         if st == "exc":
